@@ -1,0 +1,83 @@
+//go:build verif
+// +build verif
+
+// Contracts for deductive verification (govc, /verif). Comment-only file.
+
+package govern_token
+
+// ======================= C19: governance tokens =======================
+// View of the contract's bucket in a context: key -> encoded balance record,
+// decoded by gtTotal / gtLock (total balance, locked amount per lock type).
+//
+//@ macro gtBucket() = "governToken"
+//@ macro gtKey(acct) = "balanceOf_" + acct
+//@ macro gtHas(ctx, acct) = sel(sel(sel(ctxHas, ifacePtr(ctx)), gtBucket()), gtKey(acct))
+//@ macro gtVal(ctx, acct) = sel(sel(sel(ctxVal, ifacePtr(ctx)), gtBucket()), gtKey(acct))
+//@ macro gtOldHas(ctx, acct) = sel(sel(sel(old(ctxHas), ifacePtr(ctx)), gtBucket()), gtKey(acct))
+//@ macro gtOldVal(ctx, acct) = sel(sel(sel(old(ctxVal), ifacePtr(ctx)), gtBucket()), gtKey(acct))
+
+//@ func KernMethod.balanceOf
+//@   property C19
+//@   ensures found: result1 == nil ==> gtHas(ctx, account) && gtRecTotal(result0) == gtTotal(gtVal(ctx, account)) && gtRecLock(result0, "ordinary") == gtLock(gtVal(ctx, account), "ordinary") && gtRecLock(result0, "tdpos") == gtLock(gtVal(ctx, account), "tdpos")
+//@   ensures record_shape: result1 == nil ==> gtRecSeparate(result0) && isfresh(result0) && gtRecFresh(result0)
+//@   ensures view_unchanged: ctxVal == old(ctxVal) && ctxHas == old(ctxHas)
+//@   ensures old_cells_unchanged: forall r int :: r <= old(allocTop()) ==> sel(bigval, r) == sel(old(bigval), r)
+
+// A transfer moves amount from the initiator to args["to"]: totals change by
+// -amount / +amount (not at all for a transfer to oneself), no locked amount of
+// any account changes, no other record changes, and it is refused unless
+// amount >= 0 and the sender's total minus each of its locked amounts covers it.
+//
+//@ macro gtSameLocks(a, b) = gtLock(a, "ordinary") == gtLock(b, "ordinary") && gtLock(a, "tdpos") == gtLock(b, "tdpos")
+//@ func KernMethod.TransferGovernTokens
+//@   property C19
+//@   uses concatInj fmtParse
+//@   let S = ctx.Initiator()
+//@   let R = str(ctx.Args()["to"])
+//@   let A = parseDec(str(ctx.Args()["amount"]))
+//@   ensures covered_by_unlocked_balance: result1 == nil ==> A >= 0 && gtOldHas(ctx, S) && gtTotal(gtOldVal(ctx, S)) - gtLock(gtOldVal(ctx, S), "ordinary") >= A && gtTotal(gtOldVal(ctx, S)) - gtLock(gtOldVal(ctx, S), "tdpos") >= A
+//@   ensures sender_debited: result1 == nil && S != R ==> gtHas(ctx, S) && gtTotal(gtVal(ctx, S)) == gtTotal(gtOldVal(ctx, S)) - A
+//@   ensures receiver_credited: result1 == nil && S != R ==> gtHas(ctx, R) && gtTotal(gtVal(ctx, R)) == (gtOldHas(ctx, R) ? gtTotal(gtOldVal(ctx, R)) : 0) + A
+//@   ensures self_transfer_neutral: result1 == nil && S == R ==> gtHas(ctx, S) && gtTotal(gtVal(ctx, S)) == gtTotal(gtOldVal(ctx, S))
+//@   ensures sender_locks_kept: result1 == nil ==> gtSameLocks(gtVal(ctx, S), gtOldVal(ctx, S))
+//@   ensures receiver_locks_kept: result1 == nil && gtOldHas(ctx, R) ==> gtSameLocks(gtVal(ctx, R), gtOldVal(ctx, R))
+//@   ensures fresh_receiver_no_locks: result1 == nil && !gtOldHas(ctx, R) ==> gtLock(gtVal(ctx, R), "ordinary") == 0 && gtLock(gtVal(ctx, R), "tdpos") == 0
+//@   ensures others_untouched: result1 == nil ==> (forall k string :: k != gtKey(S) && k != gtKey(R) ==> sel(sel(sel(ctxVal, ifacePtr(ctx)), gtBucket()), k) == sel(sel(sel(old(ctxVal), ifacePtr(ctx)), gtBucket()), k) && sel(sel(sel(ctxHas, ifacePtr(ctx)), gtBucket()), k) == sel(sel(sel(old(ctxHas), ifacePtr(ctx)), gtBucket()), k))
+//@   loop 1 invariant checked: (in($visited, "ordinary") ==> sel(bigval, senderBalance.TotalBalance) - sel(bigval, senderBalance.LockedBalance["ordinary"]) >= A) && (in($visited, "tdpos") ==> sel(bigval, senderBalance.TotalBalance) - sel(bigval, senderBalance.LockedBalance["tdpos"]) >= A)
+//@   loop 1 invariant stable: sel(bigval, amount) == A && A >= 0 && gtRecTotal(senderBalance) == gtTotal(gtOldVal(ctx, S)) && gtRecLock(senderBalance, "ordinary") == gtLock(gtOldVal(ctx, S), "ordinary") && gtRecLock(senderBalance, "tdpos") == gtLock(gtOldVal(ctx, S), "tdpos") && gtRecSeparate(senderBalance) && ctxVal == old(ctxVal) && ctxHas == old(ctxHas) && gtOldHas(ctx, S)
+//@   loop 1 invariant cells: amount != nil && amount != senderBalance.TotalBalance && senderBalance.LockedBalance["ordinary"] != amount && senderBalance.LockedBalance["tdpos"] != amount && amount <= allocTop() && senderBalance.TotalBalance <= allocTop() && senderBalance.LockedBalance["ordinary"] <= allocTop() && senderBalance.LockedBalance["tdpos"] <= allocTop() && senderBalance <= allocTop()
+
+// Lock / unlock change exactly one locked amount of exactly the named account,
+// by +amount / -amount, only for the three kernel-contract callers, and a lock
+// needs total - locked(type) >= amount. Totals never change.
+//
+//@ macro gtCallerOK(ctx) = ctx.Caller() == "$proposal" || ctx.Caller() == "$tdpos" || ctx.Caller() == "$xpos"
+//@ macro gtOther(ty) = ty == "ordinary" ? "tdpos" : "ordinary"
+//@ func KernMethod.LockGovernTokens
+//@   property C19
+//@   uses concatInj fmtParse
+//@   let F = str(ctx.Args()["from"])
+//@   let A = parseDec(str(ctx.Args()["amount"]))
+//@   let T = str(ctx.Args()["lock_type"])
+//@   ensures only_kernel_callers: result1 == nil ==> gtCallerOK(ctx)
+//@   ensures valid_lock_type: result1 == nil ==> T == "ordinary" || T == "tdpos"
+//@   ensures needs_available_balance: result1 == nil && okDec(str(ctx.Args()["amount"])) ==> gtOldHas(ctx, F) && gtTotal(gtOldVal(ctx, F)) - gtLock(gtOldVal(ctx, F), T) >= A
+//@   ensures locked_grows_by_amount: result1 == nil && okDec(str(ctx.Args()["amount"])) ==> gtHas(ctx, F) && gtLock(gtVal(ctx, F), T) == gtLock(gtOldVal(ctx, F), T) + A
+//@   ensures other_lock_and_total_kept: result1 == nil ==> gtTotal(gtVal(ctx, F)) == gtTotal(gtOldVal(ctx, F)) && gtLock(gtVal(ctx, F), gtOther(T)) == gtLock(gtOldVal(ctx, F), gtOther(T))
+//@   ensures others_untouched: result1 == nil ==> (forall k string :: k != gtKey(F) ==> sel(sel(sel(ctxVal, ifacePtr(ctx)), gtBucket()), k) == sel(sel(sel(old(ctxVal), ifacePtr(ctx)), gtBucket()), k) && sel(sel(sel(ctxHas, ifacePtr(ctx)), gtBucket()), k) == sel(sel(sel(old(ctxHas), ifacePtr(ctx)), gtBucket()), k))
+
+//@ func KernMethod.UnLockGovernTokens
+//@   property C19
+//@   uses concatInj fmtParse
+//@   let F = str(ctx.Args()["from"])
+//@   let A = parseDec(str(ctx.Args()["amount"]))
+//@   let T = str(ctx.Args()["lock_type"])
+//@   ensures only_kernel_callers: result1 == nil ==> gtCallerOK(ctx)
+//@   ensures valid_lock_type: result1 == nil ==> T == "ordinary" || T == "tdpos"
+//@   ensures locked_shrinks_by_amount: result1 == nil && okDec(str(ctx.Args()["amount"])) ==> gtHas(ctx, F) && gtOldHas(ctx, F) && gtLock(gtVal(ctx, F), T) == gtLock(gtOldVal(ctx, F), T) - A
+//@   ensures other_lock_and_total_kept: result1 == nil ==> gtTotal(gtVal(ctx, F)) == gtTotal(gtOldVal(ctx, F)) && gtLock(gtVal(ctx, F), gtOther(T)) == gtLock(gtOldVal(ctx, F), gtOther(T))
+//@   ensures others_untouched: result1 == nil ==> (forall k string :: k != gtKey(F) ==> sel(sel(sel(ctxVal, ifacePtr(ctx)), gtBucket()), k) == sel(sel(sel(old(ctxVal), ifacePtr(ctx)), gtBucket()), k) && sel(sel(sel(ctxHas, ifacePtr(ctx)), gtBucket()), k) == sel(sel(sel(old(ctxHas), ifacePtr(ctx)), gtBucket()), k))
+
+// Conservation step over the abstract totals: a transfer between two records keeps their sum.
+//@ lemma transfer_conserves_sum: forall ts int, tr int, a int :: (ts - a) + (tr + a) == ts + tr
+//@   property C19
